@@ -597,6 +597,12 @@ def check_C19(tier, seed):
     for i, src in enumerate(spaced + [t for _, t in F.VALID_ODD] + [t for _, t in repo_shaders()]):
         cases.append({"id": "fmt-raw-%03d" % i, "family": "fmt-equivalence-raw", "wgsl": src, "opts": F.opts(rustfmt=True, bmv=True, mv="glam"), "fmt_plan": "ok", "size_class": "small"})
         cases.append({"id": "fmt-raw-%03d-fb" % i, "family": "fmt-equivalence-raw", "wgsl": src, "opts": F.opts(rustfmt=True, bmv=True, mv="glam"), "fmt_plan": "fail_after_read", "size_class": "small"})
+    # the same source and options through both public functions and with several include paths, formatter on every time: whatever the
+    # formatter path remembers between calls, the program returned is the one for THIS call
+    for i, S in enumerate(small[:2] + [F.rand_shader(rng, names=True)]):
+        for j, inc in enumerate([None, "a.wgsl", "shaders/b.wgsl", None, "a.wgsl", "dir with space/c.wgsl"]):
+            o = F.opts(rustfmt=True, enc=True, mv="glam") if inc is None else F.opts(rustfmt=True, enc=True, mv="glam", include=inc)
+            cases.append({"id": "fmt-variants-%d-%d" % (i, j), "family": "fmt-same-source-other-variant", "S": S, "opts": o, "fmt_plan": ("ok", "ok", "fail_after_read")[j % 3], "size_class": "small"})
     by_id = {c["id"]: c for c in cases}
     trace = run_vdriver(cases, "C19_fmt", keep=["mods"], case_timeout=30)
     # sanity: size classes are what they claim; hooks present
@@ -759,6 +765,15 @@ def check_C01(tier, seed):
     for i, pth in enumerate(["inc_a_%d.wgsl", "shaders/deep/inc_b_%d.wgsl", "dir with space/inc c_%d.wgsl"]):
         S, has_rt = F.role_shader(rng, big_arrays=False)
         cases.append({"id": "include-%d" % i, "family": "compile-include-variant", "S": S, "opts": dict(F.opts(enc=True, mv="glam", rustfmt=(i == 1)), include=pth % i)})
+    # one source and one option vector through both public functions in one process, formatter on: first with an include path whose file does
+    # not exist (that call is history only), then embedded, then with a path whose file is in place
+    for i in range(2):
+        S, has_rt = F.role_shader(rng, big_arrays=False)
+        o_ = F.opts(enc=True, mv="glam", rustfmt=True, bmv=(i == 1))
+        cases.append({"id": "variants-%d-0" % i, "family": "compile-same-source-other-variant", "S": S, "opts": dict(o_, include="missing/never_written_%d.wgsl" % i), "nocompile": True})
+        cases.append({"id": "variants-%d-1" % i, "family": "compile-same-source-other-variant", "S": S, "opts": dict(o_)})
+        cases.append({"id": "variants-%d-2" % i, "family": "compile-same-source-other-variant", "S": S, "opts": dict(o_, include="inc_v_%d.wgsl" % i)})
+        cases.append({"id": "variants-%d-3" % i, "family": "compile-same-source-other-variant", "S": S, "opts": dict(o_)})
     # compute entries whose workgroup size is given by overrides (literal default, expression default, no default)
     for i, (ovs, wg) in enumerate([([{"name": "base", "ty": "u32", "default": "4u"}, {"name": "wide", "ty": "u32", "default": "2 * base"}], ["wide"]),
                                    ([{"name": "n", "ty": "u32"}], ["n", "2"]), ([{"name": "wx", "ty": "u32", "default": "16u"}, {"name": "wy", "ty": "u32"}], ["wx", "wy", "1"]),
